@@ -883,6 +883,26 @@ func main() {
 			r.Violation(k, fmt.Sprintf("layers %s: %s", layerStr(c.Layers), d), c)
 		}
 	})
+	// Deep pruning: a non-required file (or a whiteout) four levels down whose removal empties
+	// several nested directories; the restricted final view must keep every directory.
+	deepU := []string{"u", "u/s", "u/s/d", "u/s/d/p", "u/s/d/p/f", "u/keep", "k"}
+	for _, variant := range [][][]imgkit.Entry{
+		{{imgkit.File("u/s/d/p/f", "1"), imgkit.File("k", "1")}},
+		{{imgkit.Dir("u"), imgkit.Dir("u/s"), imgkit.Dir("u/s/d"), imgkit.Dir("u/s/d/p"), imgkit.File("u/s/d/p/f", "1"), imgkit.File("k", "1")}},
+		{{imgkit.File("u/s/d/p/f", "1"), imgkit.File("u/keep", "22"), imgkit.File("k", "1")}},
+		{{imgkit.File("u/s/d/p/f", "1"), imgkit.File("k", "1")}, {imgkit.Whiteout("u/s/d/p/f")}},
+		{{imgkit.File("u/s/d/p/f", ""), imgkit.Sym("u/s/d/l", "/k"), imgkit.File("k", "1")}},
+	} {
+		for _, rq := range []string{"all", "none", "k", "u/keep", "u/s/d/p/f"} {
+			c := &caseT{Layers: variant, Style: "plain", Req: rq}
+			k, d := runCase(c, deepU)
+			r.Evals.Add(1)
+			r.Nontrivial.Add(1)
+			if k != "" {
+				r.Violation(k, fmt.Sprintf("layers %s req=%s: %s", layerStr(c.Layers), c.Req, d), c)
+			}
+		}
+	}
 	if r.Thorough() && !r.Expired() {
 		var s1 [][]imgkit.Entry
 		for _, s := range sets {
@@ -907,5 +927,5 @@ func main() {
 	}
 	os.RemoveAll(base)
 	r.Assume("imgkit.Model.Apply (~60 lines) is the OCI image-spec change-set application: whiteouts act on lower layers only, then the layer's entries are added")
-	r.Finish(fmt.Sprintf("universe %v; entry kinds: file(2 contents/modes), dir, whiteout, opaque marker per path + 2 symlinks (%d options); layers = all well-formed sets of <=%d entries (%d); all 1- and 2-layer images, every entry order per layer (plain names), canonical order with './' and '/' name styles; for images where an upper layer touches a lower one: 5 history arrangements incl. empty layers at every position and a short history, missing config, requirer none/each path; squashed on-disk unpack AND a FromTarball load of the saved tarball for all pairs of single-entry layers; thorough adds all 3-layer images (<=%d,<=%d,1). Each view: Stat/Open+Read on every universe path + 2 absent paths, ReadDir of every directory, WalkDir. non-trivial = an upper-layer entry overlaps a lower-layer entry", universe, len(opts), maxEntries, len(sets), maxEntries, maxEntries), complete)
+	r.Finish(fmt.Sprintf("universe %v; entry kinds: file(2 contents/modes), dir, whiteout, opaque marker per path + 2 symlinks (%d options); layers = all well-formed sets of <=%d entries (%d); all 1- and 2-layer images, every entry order per layer (plain names), canonical order with './' and '/' name styles; for images where an upper layer touches a lower one: 5 history arrangements incl. empty layers at every position and a short history, missing config, requirer none/each path; deep-pruning family (file 4 levels down x requirers); squashed on-disk unpack AND a FromTarball load of the saved tarball for all pairs of single-entry layers; thorough adds all 3-layer images (<=%d,<=%d,1). Each view: Stat/Open+Read on every universe path + 2 absent paths, ReadDir of every directory, WalkDir. non-trivial = an upper-layer entry overlaps a lower-layer entry", universe, len(opts), maxEntries, len(sets), maxEntries, maxEntries), complete)
 }
